@@ -181,6 +181,15 @@ func check(tt *testing.T, c Case) (pbt.Info, error) {
 	info.Label("kind:" + c.Kind)
 	info.Label("origin:" + c.Origin)
 	info.NonTrivial = c.Origin != "valid" && (len(c.Body) > 0 || c.Status != 200)
+	if c.Origin == "json" && c.Protocol == "connect" && c.Kind == prog.Unary {
+		// measured, not assumed: most of the hostile documents are meant to be
+		// syntactically valid JSON (a generator step once corrupted all of them)
+		if json.Valid(c.Body) {
+			info.Label("json-origin-body-is-valid-json")
+		} else {
+			info.Label("json-origin-body-is-not-json")
+		}
+	}
 	res, berr := run(tt, c)
 	where := fmt.Sprintf("%s/%s/%s client given HTTP %d, headers %v, %d body bytes %q, trailers %v, body read ending %q", c.Protocol, c.Codec, c.Kind, c.Status, c.Header, len(c.Body), trunc(c.Body, 80), c.Trailer, c.ReadErr)
 	if berr != nil {
